@@ -118,10 +118,19 @@ def main(a):
     if vunits:
         engines_used.add("verus-z3")
         with Scratch("verus-" + pid) as sc:
-            for u in vunits:
+            # units are independent files: run them side by side (each is one rustc + z3 process)
+            from concurrent.futures import ThreadPoolExecutor
+
+            def _run(u):
                 try:
-                    r = verus_engine.run_unit(u, sc)
+                    return verus_engine.run_unit(u, sc)
                 except verus_engine.Undecided as e:
+                    return e
+            with ThreadPoolExecutor(max_workers=int(os.environ.get("VERIF_VERUS_JOBS", "6"))) as ex:
+                outcomes = list(ex.map(_run, vunits))
+            for u, r in zip(vunits, outcomes):
+                if isinstance(r, verus_engine.Undecided):
+                    e = r
                     undecided.append((u.name, str(e)))
                     units_ev.append({"engine": "verus-z3", "unit": u.name, "status": "undecided", "reason": str(e)})
                     continue
